@@ -23,8 +23,9 @@ type expCase struct {
 	Gens     int             `json:"gens"`
 	Script   [][]string      `json:"script"`
 	Observer bool            `json:"observer"`
-	Evals    [][]interface{} `json:"evals"` // [run, gen, [popRun, turnovers]]
-	Calls    [][]interface{} `json:"calls"` // [kind, run, gen]
+	OCancel  [][]interface{} `json:"ocancel"` // notifications [kind, run, gen] during which the observer cancels the context
+	Evals    [][]interface{} `json:"evals"`   // [run, gen, [popRun, turnovers]]
+	Calls    [][]interface{} `json:"calls"`   // [kind, run, gen]
 	Trials   []struct {
 		Id   int             `json:"id"`
 		Gens [][]interface{} `json:"gens"` // [id, solved]
@@ -116,16 +117,24 @@ func (s *scriptedEvaluator) GenerationEvaluate(_ context.Context, pop *genetics.
 	return nil
 }
 
-type recordingObserver struct{ calls [][]interface{} }
+type recordingObserver struct {
+	calls   [][]interface{}
+	ocancel [][]interface{}
+	cancel  context.CancelFunc
+}
 
-func (r *recordingObserver) TrialRunStarted(t *experiment.Trial) {
-	r.calls = append(r.calls, []interface{}{"start", t.Id, -1})
+func (r *recordingObserver) note(kind string, run, gen int) {
+	r.calls = append(r.calls, []interface{}{kind, run, gen})
+	for _, c := range r.ocancel {
+		if len(c) == 3 && c[0] == kind && int(c[1].(float64)) == run && int(c[2].(float64)) == gen {
+			r.cancel() // the scripted observer cancels the context while it is being notified
+		}
+	}
 }
-func (r *recordingObserver) TrialRunFinished(t *experiment.Trial) {
-	r.calls = append(r.calls, []interface{}{"finish", t.Id, -1})
-}
+func (r *recordingObserver) TrialRunStarted(t *experiment.Trial)  { r.note("start", t.Id, -1) }
+func (r *recordingObserver) TrialRunFinished(t *experiment.Trial) { r.note("finish", t.Id, -1) }
 func (r *recordingObserver) EpochEvaluated(t *experiment.Trial, g *experiment.Generation) {
-	r.calls = append(r.calls, []interface{}{"epoch", t.Id, g.Id})
+	r.note("epoch", t.Id, g.Id)
 }
 
 func norm(v interface{}) interface{} {
@@ -160,7 +169,7 @@ func replayExperiment(args []string) int {
 			opts.NumRuns, opts.NumGenerations, opts.EpochExecutorType = c.Runs, c.Gens, executor
 			ctx, cancel := context.WithCancel(context.Background())
 			ev := &scriptedEvaluator{c: &c, cancel: cancel, pops: map[*genetics.Population]*popTrack{}}
-			obs := &recordingObserver{}
+			obs := &recordingObserver{ocancel: c.OCancel, cancel: cancel}
 			exp := experiment.Experiment{Id: 1}
 			var runErr error
 			bad := ""
@@ -234,7 +243,7 @@ func replayExperiment(args []string) int {
 					"signature": "experiment " + string(line)})
 			}
 		}
-		interesting := false
+		interesting := len(c.OCancel) > 0
 		for _, r := range c.Script {
 			for _, o := range r {
 				interesting = interesting || o != "ok"
